@@ -64,6 +64,57 @@ def nonempty_frame_rules(F, ok, rep, P):
     rep.floor(P + ".guard", "frame fills", n, 7)
 
 
+def _divisor_class(F, body, o):
+    out = set()
+    places = []
+    p = op_place(o)
+    if p:
+        places.append(p)
+    for c in backward_slice(body, o)["calls"]:
+        for a in c["a"]:
+            q = op_place(a)
+            if q:
+                places.append(q)
+    for p in places:
+        cs = capture_source(F, body, p)
+        if cs and cs[1] is not None:
+            pb, pp = cs
+            l = pp["l"]
+            if pb.kind != "Closure" and 1 <= l <= pb.j["argc"]:
+                out.add("arg:" + pb.locals[l]["ty"])
+            else:
+                s2 = backward_slice(pb, {"c": pp})
+                if any(re.search(r"div_ceil$", callee_name(c)) for c in s2["calls"]):
+                    out.add("bytes_per_sample")
+    return out
+
+
+def declared_total_rules(F, rep, P):
+    """the declared total of the byte / interleaved-sample writers is converted to channel-independent samples:
+    bytes / channels / bytes-per-sample, samples / channels (exact divisions)"""
+    def all_cl(b0):
+        out = []
+        for c in F.closures_of(b0):
+            out.append(c)
+            out += all_cl(c)
+        return out
+    for path, want in (("encode::FlacByteWriter::new", [{"arg:u8"}, {"bytes_per_sample"}]), ("encode::FlacSampleWriter::new", [{"arg:u8"}])):
+        b = anchor(F, rep, P + ".len", path)
+        if b is None:
+            continue
+        got = []
+        for body in [b] + all_cl(b):
+            for bi, t in body.calls():
+                if strip_generics(callee_name(t)) == "encode::exact_div":
+                    cl_ = _divisor_class(F, body, t["a"][1])
+                    cl_ = {"bytes_per_sample"} if "bytes_per_sample" in cl_ else cl_
+                    if cl_ not in got:
+                        got.append(cl_)
+        rep.check(P + ".len", "%s: declared total is divided exactly by %s" % (path, " and by ".join("the channel count" if w == {"arg:u8"} else "bytes per sample" for w in want)),
+                  sorted(map(sorted, got)) == sorted(map(sorted, want)), loc_of(b), str(got),
+                  "the declared total is not converted to channel-independent samples by exact division by %s (found divisors %s): the length contract is enforced against the wrong number" % (want, got))
+
+
 def run(ctx, rep):
     F = ctx.facts()
     spec = ctx.spec("rfc9639.json")["limits"]
@@ -216,6 +267,7 @@ def run(ctx, rep):
         rep.check("C15.guard", "exact_div tests the divisor against zero before the remainder", len(ne) >= 1 and len(rem) == 1 and all(xb.dominates(i, rem[0]) for i, t in xb.calls() if t in ne), loc_of(xb))
 
     nonempty_frame_rules(F, ok, rep, "C15")
+    declared_total_rules(F, rep, "C15")
 
     # ---- C15.panic ----------------------------------------------------------------------------------------------------------
     auditlib.panic_audit(ctx, rep, "C15", ["G_ctor"], floor_sites=240)
